@@ -337,6 +337,11 @@ DIRECTED = [
                    {'k': 'set', 'o': 0, 'changes': [[0, 5]], 'via': 'attr'}, {'k': 'commit'}],
                   [{'k': 'fetch', 'pk': [2], 'how': 'item'}, {'k': 'extd', 'pk': [2]}, {'k': 'set', 'o': 0, 'changes': [[1, 5]], 'via': 'attr'}, {'k': 'commit'}],
                   [{'k': 'fetch', 'pk': [1], 'how': 'item'}, {'k': 'extu', 'pk': [1], 'a': 1, 'v': 9}, {'k': 'set', 'o': 0, 'changes': [[0, 6]], 'via': 'attr'}, {'k': 'commit'}]]},
+    # plain delete of a loaded object that was never read, committed; the row must be gone for the next session
+    {'spec': {'nattrs': 1, 'unique': [True], 'ckeys': [], 'pk': 'explicit', 'parents': [None], 'with_h': False},
+     'sessions': [[{'k': 'create', 'cls': 0, 'kw': {'id': 1, 'a0': 1}}, {'k': 'commit'}],
+                  [{'k': 'fetch', 'pk': [1], 'how': 'item'}, {'k': 'delete', 'o': 0}, {'k': 'commit'}],
+                  [{'k': 'fetch', 'pk': [1], 'how': 'get'}, {'k': 'create', 'cls': 0, 'kw': {'id': 1, 'a0': 1}}, {'k': 'commit'}]]},
     # a flush that stops half-way, caught by the program, then commit
     {'spec': {'nattrs': 1, 'unique': [True], 'ckeys': [], 'pk': 'explicit', 'parents': [None], 'with_h': False},
      'sessions': [[{'k': 'ext', 'pk': [9], 'vals': [3]}, {'k': 'create', 'cls': 0, 'kw': {'id': 1, 'a0': 1}}, {'k': 'create', 'cls': 0, 'kw': {'id': 2, 'a0': 3}},
